@@ -11,6 +11,7 @@ def _scales():
 
 
 TRANSLATORS = [("tr_scales", _scales)]
+GEN_FILES = ["Gen/Scales.v"]
 
 
 def run_all():
